@@ -4,6 +4,7 @@ package main
 
 import (
 	"fmt"
+	"os"
 	"go/ast"
 	"go/token"
 	"go/types"
@@ -97,7 +98,7 @@ func (e *specEnv) lookupObj(n ast.Node, obj types.Object) Val {
 	case *types.Var:
 		if o.Pkg() != nil && o.Parent() == o.Pkg().Scope() {
 			// package-level variable
-			p := Val{K: VPtr, Prefix: "G:" + o.Name(), Ref: BVU(1, 64)}
+			p := Val{K: VPtr, Prefix: "G:" + o.Name(), Ref: e.x.globalRef(o.Name())}
 			return e.x.load(e.cur, p, o.Type())
 		}
 		if e.fr != nil {
@@ -407,6 +408,15 @@ func (e *specEnv) callExpr(c *ast.CallExpr) Val {
 				// typeIs(x, (*T)(nil)) : dynamic type of interface x equals static type of second argument
 				v := e.expr(c.Args[0])
 				return scalar(Eq(v.Fs[0].T, e.x.typeTag(e.typeOf(c.Args[1]))), types.Typ[types.Bool])
+			case "isNew":
+				v := e.expr(c.Args[0])
+				switch v.K {
+				case VPtr:
+					return scalar(App("newobj", SBool, v.Ref), types.Typ[types.Bool])
+				case VSlice:
+					return scalar(App("newobj", SBool, v.base()), types.Typ[types.Bool])
+				}
+				e.fail(c, "isNew needs a pointer or slice")
 			case "isNaN":
 				return scalar(mk("fp.isNaN", SBool, e.expr(c.Args[0]).T), types.Typ[types.Bool])
 			case "isInf":
@@ -605,6 +615,9 @@ func (x *fnExec) resolveLocal(e *specEnv, obj *types.Var) (Val, bool) {
 		if b != nil {
 			start = len(b.Instrs) - 1
 		}
+	}
+	if os.Getenv("SCTPVC_DEBUG") != "" {
+		fmt.Fprintf(os.Stderr, "resolveLocal failed: %s declared at %s; at=%v loop=%v\n", obj.Name(), x.P.Fset.Position(obj.Pos()), e.at, e.loop != nil)
 	}
 	// parameters never referenced: look up by name among function params
 	for _, p := range fr.fn.Params {
